@@ -1413,3 +1413,9 @@ VP("C16-R3D-mut-off-switch-same-string", "C16", "helper form: --no- switch built
    "        _option_string(path, negate=True),", "        _option_string(path),")
 VP("C16-R3D-mut-supplied-truthy", "C16", "generator form: supplied means truthy", "C16-R3D", "cincoconfig/support.py",
    "        if key not in ignore and value is not None:\n            yield key, value", "        if key not in ignore and value:\n            yield key, value")
+VP("C13-R3C-mut-guard-other-field", "C01", "flag form of the fast path: the field identity test is dropped", "C13-R3C", "cincoconfig/fields/list_field.py",
+   "            isinstance(source, ListProxy) and source.item_field is list_field.field", "            isinstance(source, ListProxy)")
+VP("C13-R3C-mut-adopt-no-parent", "C15", "flag form of adoption: a configuration handed in is stored without the parent link", "C13-R3C", CORE,
+   "            sub_config = value\n            sub_config._parent = self\n", "            sub_config = value\n")
+VP("C13-R3C-mut-dynamic-key-not-told", "C01", "dynamic field registered under the key but not told its key", "C13-R3C", CORE,
+   "            field = AnyField()\n            field.__setkey__(self._schema, key)\n", "            field = AnyField()\n")
